@@ -9,6 +9,7 @@ import (
 	"verifmc/drive"
 	"verifmc/ref"
 	"verifmc/rep"
+	"verifmc/term"
 )
 
 func init() { Registry["C02"] = c02 }
@@ -63,8 +64,30 @@ func c02(r *rep.Run) {
 	progs = withAliases(progs, aliasMax)
 	progs = withMerged(progs, 5)
 	progs = append(loneLeafPrograms(), progs...)
+	// named constants whose Go value is NOT one of the engine's types (a plain
+	// Go int): they are what the caller put there, in every subset alike
+	// (judged by cross-configuration agreement only)
+	{
+		raw := func() *term.Term { return &term.Term{K: term.KConst, Val: int(5), Lit: "KRAW", Ty: I} }
+		var kr []*Prog
+		for _, eq := range []string{"=", "!=", "eq", "=="} {
+			kr = append(kr,
+				MkProg(term.Op(eq, B, raw(), term.Const(5))),
+				MkProg(term.If(term.Op(eq, B, raw(), term.Const(5)), term.Var("n", I), term.Const(0))),
+				MkProg(term.Op("and", B, term.Var("b", B), term.Op(eq, B, term.Const(5), raw()))),
+				MkProg(term.Op("or", B, term.Op(eq, B, raw(), raw()), term.Var("b", B))))
+		}
+		progs = append(kr, progs...)
+	}
 	r.Cov["programs_incl_alias_spellings"] = len(progs)
 	hs := harnesses(r.Workers)
+	for _, h := range hs {
+		consts := map[string]interface{}{"KRAW": int(5)}
+		for k, v := range h.Consts {
+			consts[k] = v
+		}
+		h.Consts = consts
+	}
 	base := optMatrix(0, 1)
 	for _, o := range optMatrix(0) {
 		o.Undef = 1 // every variable resolved by name (undefined-variable mode)
